@@ -281,3 +281,17 @@ Proof.
   - split; [assumption|]. rewrite E in R. lia.
   - exfalso. pose proof (cap_mono L (s' + 1) s HL ltac:(lia)) as M. rewrite cap_step in M by lia. lia.
 Qed.
+
+(* index i is below the capacity of sc segments  <->  its segment is one of the first sc *)
+Lemma cap_lt_pure L sc i : 0 <= L -> 0 <= sc -> 0 <= i -> (i < idx_of L sc 0 <-> fst (seg_of L i) < sc).
+Proof.
+  intros HL Hsc Hi.
+  pose proof (roundtrip L HL i Hi) as R. pose proof (item_lt_cnt L HL i Hi) as C.
+  destruct (seg_of_slog L i HL Hi) as [_ S0].
+  set (s := fst (seg_of L i)) in *. set (j := snd (seg_of L i)) in *.
+  rewrite idx_offset in R by lia.
+  split; intros H.
+  - destruct (Z_lt_dec s sc); [assumption|exfalso].
+    pose proof (cap_mono L sc s HL ltac:(lia)). lia.
+  - pose proof (cap_mono L (s + 1) sc HL ltac:(lia)) as M. rewrite cap_step in M by lia. lia.
+Qed.
